@@ -85,9 +85,13 @@ class UDPListener:
     def run(self):
         if self.startup_broadcast and self.is_enabled:
             self.log.debug('Sending startup UDP broadcast.')
-            for port in self.ports:
-                self.sock.sendto(self._getMessage(port),
-                                 ('255.255.255.255', UDP_PORT))
+            try:
+                for port in self.ports:
+                    self.sock.sendto(self._getMessage(port),
+                                     ('255.255.255.255', UDP_PORT))
+            except socket.error as e:
+                # e.g. no route for broadcasts: requests may be answered nevertheless
+                self.log.debug('can not send startup UDP broadcast: %r', e)
         self.running = True
         while self.running and self.is_enabled:
             try:
